@@ -768,6 +768,7 @@ where
     /// Safe to call concurrently with other `insert`/`remove`/`search` calls.
     pub fn insert(&self, id: u64, text: &str, now_ms: u64) -> Result<(), BM25Error> {
         // Shared with other mutations, exclusive against `compact_buckets`.
+        anda_db_utils::verif_wait!("gate:read", || !self.mutation_gate.is_locked_exclusive());
         let _mutation_guard = self.mutation_gate.read();
 
         // Tokenize the document
@@ -786,10 +787,12 @@ where
         }
 
         // Phase 1: Update the postings collection
+        anda_db_utils::verif_point!("insert:max_bucket_id.load");
         let bucket_id = self.max_bucket_id.load(Ordering::Acquire);
         let tokens: usize = token_freqs.values().sum();
         // buckets_to_update: FxHashMap<bucketid, FxHashMap<token, size_increase>>
         let mut buckets_to_update: FxHashMap<u32, FxHashMap<String, usize>> = FxHashMap::default();
+        anda_db_utils::verif_point!("insert:doc_tokens.entry");
         match self.doc_tokens.entry(id) {
             dashmap::Entry::Occupied(_) => {
                 return Err(BM25Error::AlreadyExists {
@@ -810,6 +813,7 @@ where
 
                 // Update inverted index
                 for (token, freq) in token_freqs {
+                    anda_db_utils::verif_point!("insert:postings.entry");
                     match self.postings.entry(token.clone()) {
                         dashmap::Entry::Occupied(mut entry) => {
                             let val = (id, freq);
@@ -845,6 +849,7 @@ where
         // tokens_to_migrate: (old_bucket_id, token, size)
         let mut tokens_to_migrate: Vec<(u32, String, usize)> = Vec::new();
         for (bid, val) in buckets_to_update {
+            anda_db_utils::verif_point!("insert:buckets.entry(update)");
             let mut bucket = self.buckets.entry(bid).or_default();
             // Mark as dirty, needs to be persisted
             bucket.mark_dirty();
@@ -871,13 +876,16 @@ where
 
         // Phase 3: Create new buckets if needed
         if !tokens_to_migrate.is_empty() {
+            anda_db_utils::verif_point!("insert:max_bucket_id.fetch_add");
             let mut next_bucket_id = self.max_bucket_id.fetch_add(1, Ordering::Release) + 1;
 
             for (old_bucket_id, token, size) in tokens_to_migrate {
+                anda_db_utils::verif_point!("insert:migrate.postings.get_mut");
                 if let Some(mut posting) = self.postings.get_mut(&token) {
                     posting.0 = next_bucket_id;
                 }
 
+                anda_db_utils::verif_point!("insert:migrate.buckets.get_mut(old)");
                 if let Some(mut ob) = self.buckets.get_mut(&old_bucket_id)
                     && ob.tokens.swap_remove_if(|k| &token == k).is_some()
                 {
@@ -887,6 +895,7 @@ where
 
                 let mut next_new_bucket = false;
                 {
+                    anda_db_utils::verif_point!("insert:migrate.buckets.entry(next)");
                     let mut nb = self.buckets.entry(next_bucket_id).or_default();
 
                     if nb.tokens.is_empty() || nb.size + size < self.config.bucket_overload_size {
@@ -902,11 +911,14 @@ where
                 }
 
                 if next_new_bucket {
+                    anda_db_utils::verif_point!("insert:migrate.max_bucket_id.fetch_add");
                     next_bucket_id = self.max_bucket_id.fetch_add(1, Ordering::Release) + 1;
                     // update the posting's bucket_id again
+                    anda_db_utils::verif_point!("insert:migrate.postings.get_mut(again)");
                     if let Some(mut posting) = self.postings.get_mut(&token) {
                         posting.0 = next_bucket_id;
                     }
+                    anda_db_utils::verif_point!("insert:migrate.buckets.entry(fresh)");
                     let mut nb = self.buckets.entry(next_bucket_id).or_default();
                     nb.mark_dirty();
                     nb.size += size;
@@ -916,6 +928,7 @@ where
             }
         }
 
+        anda_db_utils::verif_point!("insert:metadata.write");
         self.update_metadata(|m| {
             m.stats.version += 1;
             m.stats.last_inserted = now_ms;
@@ -950,12 +963,14 @@ where
     /// * `false` otherwise.
     pub fn remove(&self, id: u64, text: &str, now_ms: u64) -> bool {
         // Shared with other mutations, exclusive against `compact_buckets`.
+        anda_db_utils::verif_wait!("gate:read", || !self.mutation_gate.is_locked_exclusive());
         let _mutation_guard = self.mutation_gate.read();
 
         // Even when `doc_tokens` was already removed, continue through the
         // supplied text and bucket bookkeeping. Crash-replay may encounter a
         // prefix of an earlier remove, and the retry must still purge stale
         // postings without double-counting the logical deletion.
+        anda_db_utils::verif_point!("remove:doc_tokens.remove");
         let removed_tokens = self.doc_tokens.remove(&id).map(|(_k, v)| v);
         let was_present = removed_tokens.is_some();
 
@@ -978,6 +993,7 @@ where
         // Remove from inverted index
         let mut maybe_empty_tokens: Vec<String> = Vec::new();
         for (token, _) in token_freqs {
+            anda_db_utils::verif_point!("remove:postings.get_mut");
             if let Some(mut posting) = self.postings.get_mut(&token) {
                 // Remove every entry for this document. Duplicates can exist
                 // when a previous remove() was given non-original text and the
@@ -1010,6 +1026,7 @@ where
         let mut removed_postings: FxHashSet<String> =
             FxHashSet::with_capacity_and_hasher(maybe_empty_tokens.len(), FxBuildHasher);
         for token in maybe_empty_tokens {
+            anda_db_utils::verif_point!("remove:postings.remove_if");
             if self
                 .postings
                 .remove_if(&token, |_, posting| posting.1.is_empty())
@@ -1020,6 +1037,7 @@ where
         }
 
         for (bucket_id, val) in buckets_to_update {
+            anda_db_utils::verif_point!("remove:buckets.get_mut");
             if let Some(mut b) = self.buckets.get_mut(&bucket_id) {
                 // Mark as dirty, needs to be persisted
                 b.mark_dirty();
@@ -1049,6 +1067,7 @@ where
         // doc_tokens (e.g. stale postings left by a remove() with non-original
         // text); mark them dirty so the next flush drops the reference.
         // Read-scan first to avoid write-locking every shard on each remove.
+        anda_db_utils::verif_point!("remove:buckets.iter(stale)");
         let stale_buckets: Vec<u32> = self
             .buckets
             .iter()
@@ -1056,6 +1075,7 @@ where
             .map(|bucket| *bucket.key())
             .collect();
         for bucket_id in stale_buckets {
+            anda_db_utils::verif_point!("remove:buckets.get_mut(stale)");
             if let Some(mut bucket) = self.buckets.get_mut(&bucket_id)
                 && bucket.doc_ids.remove(&id)
             {
@@ -1064,6 +1084,7 @@ where
         }
 
         if was_present {
+            anda_db_utils::verif_point!("remove:metadata.write");
             self.update_metadata(|m| {
                 m.stats.version += 1;
                 m.stats.last_deleted = now_ms;
@@ -1135,6 +1156,7 @@ where
         }
 
         // Shared with other mutations, exclusive against `compact_buckets`.
+        anda_db_utils::verif_wait!("gate:read", || !self.mutation_gate.is_locked_exclusive());
         let _mutation_guard = self.mutation_gate.read();
 
         // Phase 1: drop the document lengths. As in `insert`/`remove`, the
@@ -1142,6 +1164,7 @@ where
         let mut removed_docs = 0usize;
         let mut removed_tokens = 0u64;
         for id in ids {
+            anda_db_utils::verif_point!("purge_ids:doc_tokens.remove");
             if let Some((_, tokens)) = self.doc_tokens.remove(id) {
                 removed_docs += 1;
                 removed_tokens += tokens as u64;
@@ -1157,6 +1180,7 @@ where
         // the `buckets` map is touched.
         let mut bucket_size_decrease: FxHashMap<u32, usize> = FxHashMap::default();
         let mut emptied_tokens: Vec<(u32, String)> = Vec::new();
+        anda_db_utils::verif_point!("purge_ids:postings.iter_mut");
         for mut posting in self.postings.iter_mut() {
             let bucket_id = posting.0;
             let mut removed_entries: Vec<(u64, usize)> = Vec::new();
@@ -1194,6 +1218,7 @@ where
         let mut removed_postings: FxHashSet<String> =
             FxHashSet::with_capacity_and_hasher(emptied_tokens.len(), FxBuildHasher);
         for (_, token) in emptied_tokens.iter() {
+            anda_db_utils::verif_point!("purge_ids:postings.remove_if");
             if self
                 .postings
                 .remove_if(token, |_, posting| posting.1.is_empty())
@@ -1206,6 +1231,7 @@ where
         // Phase 4: resize and dirty every bucket that owned an affected token.
         let mut purged_postings = !bucket_size_decrease.is_empty();
         for (bucket_id, size_decrease) in bucket_size_decrease {
+            anda_db_utils::verif_point!("purge_ids:buckets.get_mut(resize)");
             if let Some(mut bucket) = self.buckets.get_mut(&bucket_id) {
                 bucket.mark_dirty();
                 bucket.size = bucket.size.saturating_sub(size_decrease);
@@ -1221,10 +1247,12 @@ where
             if !removed_postings.contains(&token) {
                 continue;
             }
+            anda_db_utils::verif_point!("purge_ids:postings.get(unlist)");
             let unlist = match self.postings.get(&token) {
                 Some(posting) => posting.0 != bucket_id,
                 None => true,
             };
+            anda_db_utils::verif_point!("purge_ids:buckets.get_mut(unlist)");
             if unlist && let Some(mut bucket) = self.buckets.get_mut(&bucket_id) {
                 bucket.tokens.swap_remove_if(|k| k == &token);
             }
@@ -1236,6 +1264,7 @@ where
         // first so a purge that touches nothing does not write-lock every
         // shard; probe by `ids` (the dead set is small) rather than by
         // `doc_ids` (which can hold the whole collection).
+        anda_db_utils::verif_point!("purge_ids:buckets.iter(stale)");
         let stale_buckets: Vec<u32> = self
             .buckets
             .iter()
@@ -1244,6 +1273,7 @@ where
             .collect();
         purged_postings |= !stale_buckets.is_empty();
         for bucket_id in stale_buckets {
+            anda_db_utils::verif_point!("purge_ids:buckets.get_mut(stale)");
             if let Some(mut bucket) = self.buckets.get_mut(&bucket_id) {
                 let before = bucket.doc_ids.len();
                 bucket.doc_ids.retain(|id| !ids.contains(id));
@@ -1254,6 +1284,7 @@ where
         }
 
         if removed_docs > 0 || purged_postings {
+            anda_db_utils::verif_point!("purge_ids:metadata.write");
             self.update_metadata(|m| {
                 m.stats.version += 1;
                 m.stats.last_deleted = now_ms;
@@ -1690,6 +1721,7 @@ where
     {
         // Synchronous snapshot phase: serialize dirty buckets and the
         // manifest-bearing metadata before the first await.
+        anda_db_utils::verif_point!("flush:has_dirty_buckets");
         let has_dirty = self.has_dirty_buckets();
         if !has_dirty && !self.has_pending_metadata_flush() {
             return Ok(FlushOutcome::default());
@@ -1704,7 +1736,9 @@ where
         }
 
         let mut dirty = Vec::new();
+        anda_db_utils::verif_point!("flush:collect_dirty_buckets");
         for (bucket_id, version) in self.collect_dirty_buckets() {
+            anda_db_utils::verif_point!("flush:serialize_bucket");
             if let Some(buf) = self.serialize_bucket(bucket_id)? {
                 dirty.push(BucketSnapshot {
                     bucket_id,
@@ -1716,6 +1750,7 @@ where
         // Deterministic write order simplifies fault injection and traces.
         dirty.sort_unstable_by_key(|snapshot| snapshot.bucket_id);
 
+        anda_db_utils::verif_point!("flush:metadata.read");
         let mut meta = self.metadata();
         meta.stats.last_saved = now_ms.max(meta.stats.last_saved);
         // This flush's generation: unique per committed manifest because the
@@ -1728,6 +1763,7 @@ where
         let committed = meta.buckets.clone();
         let dirty_ids: FxHashSet<u32> = dirty.iter().map(|s| s.bucket_id).collect();
         let mut manifest = BTreeMap::new();
+        anda_db_utils::verif_point!("flush:buckets.iter(manifest)");
         for entry in self.buckets.iter() {
             let id = *entry.key();
             if dirty_ids.contains(&id) {
@@ -1856,14 +1892,17 @@ where
         // Exclusive: no mutation may observe — or add to — the half-rebuilt
         // bucket map. Every mutator takes the shared side of this gate before
         // touching any other lock, so the ordering is uniform and deadlock-free.
+        anda_db_utils::verif_wait!("gate:write", || !self.mutation_gate.is_locked());
         let _mutation_guard = self.mutation_gate.write();
 
+        anda_db_utils::verif_point!("compact:buckets.len");
         let old_count = self.buckets.len();
         if old_count <= 1 {
             return (old_count, old_count);
         }
 
         // Step 1: Estimate each token's serialized contribution.
+        anda_db_utils::verif_point!("compact:postings.iter");
         let mut token_sizes: Vec<(String, usize)> = self
             .postings
             .iter()
@@ -1874,7 +1913,9 @@ where
             .collect();
 
         if token_sizes.is_empty() {
+            anda_db_utils::verif_point!("compact:buckets.clear(empty)");
             self.buckets.clear();
+            anda_db_utils::verif_point!("compact:buckets.insert(empty)");
             self.buckets.insert(
                 0,
                 Bucket {
@@ -1882,7 +1923,9 @@ where
                     ..Default::default()
                 },
             );
+            anda_db_utils::verif_point!("compact:max_bucket_id.store(empty)");
             self.max_bucket_id.store(0, Ordering::Relaxed);
+            anda_db_utils::verif_point!("compact:metadata.write(empty)");
             self.update_metadata(|m| {
                 m.stats.version += 1;
             });
@@ -1932,6 +1975,7 @@ where
         }
 
         // Step 4: Rebuild buckets.
+        anda_db_utils::verif_point!("compact:buckets.clear");
         self.buckets.clear();
         let new_count = bins.len();
         let max_id = new_count.saturating_sub(1) as u32;
@@ -1942,6 +1986,7 @@ where
             // Update posting references and collect doc_ids.
             let mut doc_ids = FxHashSet::default();
             for token in &tokens {
+                anda_db_utils::verif_point!("compact:postings.get_mut");
                 if let Some(mut posting) = self.postings.get_mut(token) {
                     posting.0 = bucket_id;
                     for (doc_id, _) in posting.1.iter() {
@@ -1950,6 +1995,7 @@ where
                 }
             }
 
+            anda_db_utils::verif_point!("compact:buckets.insert");
             self.buckets.insert(
                 bucket_id,
                 Bucket {
@@ -1962,7 +2008,9 @@ where
             );
         }
 
+        anda_db_utils::verif_point!("compact:max_bucket_id.store");
         self.max_bucket_id.store(max_id, Ordering::Relaxed);
+        anda_db_utils::verif_point!("compact:metadata.write");
         self.update_metadata(|m| {
             m.stats.version += 1;
         });
